@@ -233,6 +233,7 @@ def h_order_refl(ctx: Any, nterms: int, small: bool = False, twin: bool = False)
 # -- histories in fresh processes --------------------------------------------------------------------
 
 MENU = ('direct', 'schematic', 'chain', 'small_theory', 'neg-known', 'neg-raw', 'rev-symbols', 'three-imports')
+SAME_OBJECT = ('small-neg', 'propositional', 'chain', 'schematic')
 
 
 def _child(seq: list) -> Any:
@@ -248,8 +249,15 @@ def _child(seq: list) -> Any:
 
 def _hist_task(task: tuple) -> tuple:
     hist, target, opt = task
-    seq = [[h, opt] for h in hist] + [[target, opt]]
-    return task, _child(seq)[-1]
+    if hist and hist[0] == '<same object>':
+        # the same module object serialised before (with either setting), then again
+        seq = [[target, hist[1]], [target, opt, 'same']]
+    else:
+        seq = [[h, opt] for h in hist] + [[target, opt]]
+    try:
+        return task, _child(seq)[-1]
+    except RuntimeError as e:
+        return task, {'failed': str(e)[-300:], 'sha': None, 'len': None}
 
 
 def histories(tier: str) -> tuple[list, dict]:
@@ -266,6 +274,16 @@ def histories(tier: str) -> tuple[list, dict]:
                     tasks.append((list(hist), target, opt))
     if tier == 'quick':
         tasks = [t for t in tasks if len(t[0]) <= 1 or (t[2] and t[0][0] != t[0][1] and t[1] in ('chain', 'neg-known', 'rev-symbols', 'three-imports'))]
+    # two Metamath databases in which one token is a variable in one and a constant in the other, translated in one process
+    for target, other in (('mm:ph2-constant', 'mm:two-variables'), ('mm:two-variables', 'mm:ph2-constant')):
+        tasks.append(([], target, True))
+        tasks.append(([other], target, True))
+        tasks.append(([target, other], target, True))
+    for target in SAME_OBJECT:
+        for opt in (False, True):
+            tasks.append(([], target, opt))
+            for prev in (False, True):
+                tasks.append((['<same object>', prev], target, opt))
     with mp.get_context('fork').Pool(os.cpu_count() or 4) as pool:
         results = pool.map(_hist_task, tasks, chunksize=2)
     base = {(t[1], t[2]): r for t, r in results if not t[0]}
@@ -275,12 +293,14 @@ def histories(tier: str) -> tuple[list, dict]:
             continue
         b = base[(t[1], t[2])]
         n_cmp += 1
+        if b.get('failed'):
+            raise RuntimeError('child failed on a fresh process: ' + b['failed'])
         if r['sha'] != b['sha']:
             viol.append(
                 {
                     'sig': f'C18.history-dependent-output[{t[1]}|optimize={t[2]}]',
-                    'path': 'inline: python -m vf.c18_child ' + json.dumps({'sequence': [[h, t[2]] for h in t[0]] + [[t[1], t[2]]]}),
-                    'detail': f'{t[1]} serialised after {t[0]} differs from {t[1]} serialised alone: stream lengths {r["len"]} vs {b["len"]}',
+                    'path': 'inline: python -m vf.c18_child ' + json.dumps({'sequence': ([[t[1], t[0][1]], [t[1], t[2], 'same']] if t[0] and t[0][0] == '<same object>' else [[h, t[2]] for h in t[0]] + [[t[1], t[2]]])}),
+                    'detail': (f'{t[1]} serialised after {t[0]} fails ({r["failed"]}) although it succeeds alone' if r.get('failed') else f'{t[1]} serialised after {t[0]} differs from {t[1]} serialised alone: stream lengths {r["len"]} vs {b["len"]}'),
                 }
             )
     return viol, {'history_runs': len(tasks), 'compared_with_fresh': n_cmp, 'menu': list(MENU), 'max_history': maxh}
